@@ -409,10 +409,14 @@ def run_setting(ctx, mods, number, choice, nsites, mode, tolerance=None, max_pat
             continue
         # assign every reference image to a kept row using one model of the path
         if mdl is None:
-            rr, sol = ex.check(ex.base, timeout_ms=20000)
+            # the witness query above did not finish (busy machine): ask once more for a model of this very path condition; a
+            # model of anything weaker would assign the images wrongly
+            rr, sol = ex.check(list(p.pc), timeout_ms=180000)
             mdl = sol.model() if rr == "sat" else None
+            if rr == "unsat":
+                continue
         if mdl is None:
-            ctx.mark_inconclusive(name, "no model of the path condition")
+            ctx.mark_inconclusive(name, "no model of the path condition within the time limit")
             continue
         fpt = [[Sym._lift(fp[m][c]).real() for c in range(3)] for m in range(M)]
         fpv = [[_val(mdl, fpt[m][c]) for c in range(3)] for m in range(M)]
